@@ -464,7 +464,8 @@ fn build_woff(tables: &[Vec<u8>], m: &Member, ext: u8, rng: &mut StdRng) -> (Vec
 }
 
 /// WOFF file around given stored forms (`stored[t]` is `tables[t]` itself or a zlib stream of it).
-/// ext: 0 = tables only; 1 = an extended-metadata block (zlib) after the tables; 2 = metadata and a private block.
+/// ext: 0 = tables only; 1 = an extended-metadata block (zlib) after the tables; 2 = metadata and a private block;
+/// 3 = a private block and no metadata.
 /// With ext > 0 totalSfntSize and a font version are filled in as well.
 fn build_woff_stored(tables: &[Vec<u8>], stored: &[Vec<u8>], m: &Member, ext: u8, rng: &mut StdRng) -> Vec<u8> {
     let mut order: Vec<usize> = (0..tables.len()).collect();
@@ -473,7 +474,7 @@ fn build_woff_stored(tables: &[Vec<u8>], stored: &[Vec<u8>], m: &Member, ext: u8
     let (at, mut bodies) = lay_bodies(stored, &order, hdr, rng);
     let xml = b"<?xml version=\"1.0\" encoding=\"UTF-8\"?><metadata version=\"1.0\"><uniqueid id=\"verif.c10\"/></metadata>";
     let (mut meta_at, mut meta_len, mut meta_orig, mut priv_at, mut priv_len) = (0usize, 0usize, 0usize, 0usize, 0usize);
-    if ext >= 1 {
+    if ext == 1 || ext == 2 {
         while (hdr + bodies.len()) % 4 != 0 {
             bodies.push(0);
         }
@@ -1025,7 +1026,7 @@ fn record(seed: u64, max_fonts: usize, out: &str) {
         let mut d3 = full.dir.clone();
         d3.shuffle(&mut rng);
         let m3 = Member { flavor: dir.version, dir: d3 };
-        let ext = rng.gen_range(0..3u8);
+        let ext = rng.gen_range(0..4u8);
         *classes.entry(format!("woff:ext:{}", ext)).or_default() += 1;
         let (b, zipped) = build_woff(&tables, &m3, ext, &mut rng);
         record_container(&mut rec, &format!("{}/woff", name), "woff", &b, &tables, &[m3], json!({"zipped": zipped, "ext": ext}));
